@@ -123,7 +123,7 @@ Proof.
   assert (db = da) by congruence. subst db. cbn [andb].
   assert (Hisinc : is_inc (map d_incomparable vs) a = d_incomparable da).
   { unfold is_inc. erewrite nth_map_default with (da := da).
-    - erewrite nth_error_nth'; eauto.
+    - erewrite nth_error_nth_some; eauto.
     - apply nth_error_Some. congruence. }
   destruct (item_is_empty (IEnum disc id inc vs) PartialEq) eqn:Hallemp; cbn [negb eval_partial_eq].
   - (* all variants empty *)
